@@ -37,10 +37,12 @@ MANIFEST = {
                  "as a byte-grammar reader, transcribed from EType.fromPythonTypeEncoding and the E-type decoders; TLC checks "
                  "Dec(Enc(v)) = v over the universe); TLC enumerates typed values and judges the bytes and the decoded value the "
                  "real front end produces (call/return conformance, B3)",
-    "text": "Bounded exploration of an input-quantified property over the typed-value universe of C32 (types to depth 2, boundary "
+    "text": "Bounded exploration of an input-quantified property over the typed-value universe of C32 (types to depth 2, thorough tier "
+            "depth 3; loci of a registered reference genome and intervals of loci; boundary "
             "values, missing at every nullable position, 9-element arrays / 9-field structs for the second missing byte, n-d "
             "arrays with ndim 0-3 in C, Fortran and strided memory order): byte-exact comparison with the specified layout plus "
-            "the encode/decode round trip. The engine side is a manual transcription (cannot be built offline), fingerprinted.",
+            "the encode/decode round trip, and the payload of the rendered hl.literal(v, t). The engine side is a manual transcription "
+            "(cannot be built offline), fingerprinted.",
     "note": "Trusts: TLC + CommunityModules; the hand transcription of the Scala E-types in PyEncoding.tla and of Call.scala in "
             "CallPack.tla; the IEEE-754 / UTF-8 constant tables in PyEncoding.tla; little-endian host (struct '=' formats in "
             "hail.utils.byte_reader); the reference genome is built with _builtin=True and held by a registry that only owns the "
@@ -50,11 +52,13 @@ MANIFEST = {
 }
 
 ENC = "hail/hail/src/is/hail/types/encoded/"
+PHYS = "hail/hail/src/is/hail/types/physical/"
 TRANSCRIBED = {
     ENC + "EType.scala": None, ENC + "EBaseStruct.scala": None, ENC + "EArray.scala": None, ENC + "EBinary.scala": None,
     ENC + "EUnsortedSet.scala": None, ENC + "EDictAsUnsortedArrayOfPairs.scala": None, ENC + "ENDArrayColumnMajor.scala": None,
     ENC + "EInt32.scala": None, ENC + "EInt64.scala": None, ENC + "EFloat32.scala": None, ENC + "EFloat64.scala": None,
     ENC + "EBoolean.scala": None,
+    PHYS + "PCanonicalLocus.scala": None, PHYS + "PCanonicalInterval.scala": None,      # the structs locus / interval bytes are decoded into
     "hail/hail/src/is/hail/variant/Call.scala": "d43edbf267ce63c89c56e2ac744b01c7fb4b930ae1e7628257c8dc617d0ef667",
 }
 
@@ -138,7 +142,7 @@ def run(ctx):
 
     # ---- (2)-(4) Gen, the real code, Verdict (round trip + layout) -------------------------------------------
     cases, verdict, stats = tv.roundtrip_check(
-        ctx, wd, wire="encoding", convert=_convert, level=level, with_nd=True, nextra=25 if ctx.quick else 200,
+        ctx, wd, wire="encoding", convert=_convert, level=level, with_nd=True, nextra=25 if ctx.quick else 400,
         verdict_module="PyEncodingVerdict", template=TEMPLATE, top_level_missing=False,
         stride=2 if ctx.quick else 1)
     out = selfcheck.result()
@@ -176,7 +180,7 @@ def run(ctx):
     ctx.cov.update(evaluations=n, distinct_nontrivial=stats["nontrivial_types"], exhaustive=False,
                    rule=f"TLC checks Dec(Enc(v)) = v on the depth<=1 universe and the quick depth-2 selection (PyEncodingSelf); B3: TLC "
                         f"enumerates Vals(t, 2) for every type of CoreTypes (level {level}{', every 2nd pair by seed' if ctx.quick else ''}) plus {stats['extra_types']} types drawn with seed "
-                        f"{ctx.seed} from the depth-2 grammar; each pair is one real _to_encoding (bytes compared with Enc) and one real "
+                        f"{ctx.seed} from the depth-2 grammar{'' if ctx.quick else ' (every second one from the depth-3 grammar; level 1 also has 9 named depth-3 types and one construction of every kind around 8 named depth-2 combinations)'}; each pair is one real _to_encoding (bytes compared with Enc) and one real "
                         "_from_encoding (value compared with Match), judged by TLC; for every non-primitive type also hl.literal(v, t): the base64 "
                         "payload of the rendered EncodedLiteral must equal those bytes and is what is decoded; non-trivial = distinct non-primitive types exercised")
     ctx.cov["universe"] = dict(stats, bytes_compared=nbytes, nine_field_structs=two_missing_bytes, ndarray_cases_by_memory_order=nd_orders,
@@ -213,4 +217,6 @@ FINGERPRINTS = {
     ENC + "EFloat32.scala": "9c06af1e7462606b81e12cccc5fd655a41fd99fda7259bfbccd1a4a188d7983a",
     ENC + "EFloat64.scala": "62022dde3ae81944104867a19eec5d9b8f53d70dbc7b3f939c1d436aa10ebc79",
     ENC + "EBoolean.scala": "6f52eaa678a1532615f7561f873bfcc15680dd696f534b9922e45e713e54f595",
+    PHYS + "PCanonicalLocus.scala": "bae3f22421f95cc3e404d4b292978720dfe5b4febd78b8557fe29970db431b82",
+    PHYS + "PCanonicalInterval.scala": "f17d9645425d6afcea3407d342ec305cede4de69d27a1d5f83edcbb53f499cc4",
 }
